@@ -33,16 +33,17 @@ CONSTANTS NC,          \* number of chemicals
           Lib,         \* stoichiometries (vectors of rationals, not normalised)
           Tags,        \* model: tag vectors (<<>> = phase-less)
           ModelFeeds,  \* model: [kind, m] records
-          XVals, QVals, DVals, Ops
+          XVals, QVals, DVals, HfChems, HfVals, Ops
 
 VARIABLES kind,        \* phases of the stream: "g", "l" (single-phase) or "gl", "gs", "ls", "gls" (multi-phase)
           m,           \* [ {"g","l","s"} -> [1..NC -> rational] ]
           d3,          \* Scale x (T - T_ref)
           rs,          \* loaded reaction (set): [kind |-> "none"|"single"|"parallel"|"series", basis, items]
+          hf,          \* heats of formation as the compiled chemicals hold them (users may change them and refresh)
           added, path  \* model history: enthalpy ledger
-S == [kind |-> kind, m |-> m, d3 |-> d3, rs |-> rs]
-SetS(t) == kind' = t.kind /\ m' = t.m /\ d3' = t.d3 /\ rs' = t.rs
-view == <<kind, m, d3, rs, added>>
+S == [kind |-> kind, m |-> m, d3 |-> d3, rs |-> rs, hf |-> hf]
+SetS(t) == kind' = t.kind /\ m' = t.m /\ d3' = t.d3 /\ rs' = t.rs /\ hf' = t.hf
+view == <<kind, m, d3, rs, hf, added>>
 AuxVars == <<added, path>>
 None == "none"
 NoSet == [kind |-> "none", basis |-> "mol", items |-> <<>>]
@@ -63,17 +64,17 @@ Lat(i, ph) ==
          [] c.ref = "s" /\ ph = "l" -> c.Hfus
          [] c.ref = "s" /\ ph = "g" -> c.Hfus + c.Hvap
 \* molar total enthalpy (formation + latent + sensible) in 1/Scale J/mol at temperature offset dd3
-HMol3(i, ph, dd3) == (Chem[i].Hf + Lat(i, ph)) * Scale + Chem[i].c * dd3
+HMol3(h, i, ph, dd3) == (h[i] + Lat(i, ph)) * Scale + Chem[i].c * dd3
 
 RECURSIVE SumOver(_, _)
 SumOver(F(_), set) == IF set = {} THEN Zero ELSE LET x == CHOOSE y \in set : TRUE IN RAdd(F(x), SumOver(F, set \ {x}))
 Cells == Phs \X Chems
 \* total enthalpy flow including formation, 1/Scale kJ/hr (rational)
-Hnet3(s) == SumOver(LAMBDA pc : RMul(s.m[pc[1]][pc[2]], R(HMol3(pc[2], pc[1], s.d3))), Cells)
+Hnet3(s) == SumOver(LAMBDA pc : RMul(s.m[pc[1]][pc[2]], R(HMol3(s.hf, pc[2], pc[1], s.d3))), Cells)
 \* heat capacity flow, kJ/hr/K (rational)
 CFlow(mm) == SumOver(LAMBDA pc : RMul(mm[pc[1]][pc[2]], R(Chem[pc[2]].c)), Cells)
 \* formation + latent part only
-HForm3(mm) == SumOver(LAMBDA pc : RMul(mm[pc[1]][pc[2]], R((Chem[pc[2]].Hf + Lat(pc[2], pc[1])) * Scale)), Cells)
+HForm3(h, mm) == SumOver(LAMBDA pc : RMul(mm[pc[1]][pc[2]], R((h[pc[2]] + Lat(pc[2], pc[1])) * Scale)), Cells)
 
 ---------------------------------------------------------------------------
 (* reactions *)
@@ -90,8 +91,8 @@ Fits(set, k) == \/ NoneTagged(set) /\ k \in {"g", "l"}
                 \/ AllTagged(set) /\ PhasesOf(k) = SetPhases(set)
 
 \* the heat of reaction as the property defines it, J/mol reactant (mol) or J/g reactant (wt), rational
-DH(it, basis) ==
-  LET tot == SumOver(LAMBDA i : RMul(it.nu[i], R(Chem[i].Hf + (IF Tagged(it) THEN Lat(i, it.tag[i]) ELSE 0))), Participants(it))
+DH(h, it, basis) ==
+  LET tot == SumOver(LAMBDA i : RMul(it.nu[i], R(h[i] + (IF Tagged(it) THEN Lat(i, it.tag[i]) ELSE 0))), Participants(it))
       q == RMul(it.X, tot)
   IN IF basis = "wt" THEN RDiv(q, R(Chem[it.r].MW)) ELSE q
 \* amount of reactant in the basis unit (kmol/hr or kg/hr) that item it sees in table mm
@@ -112,22 +113,22 @@ NonNegT(mm) == \A ph \in Phs, i \in Chems : ~RLt(mm[ph][i], Zero)
 
 \* heat released to the stream's Hnet ledger when the set reacts isothermally, by the DEFINITION (valid when the
 \* definition's assumptions hold: T = T_ref and every participant in its tagged / reference phase); 1/Scale kJ/hr
-RECURSIVE HeatSeries(_, _, _, _)
-HeatSeries(items, k, mm, basis) ==
+RECURSIVE HeatSeries(_, _, _, _, _)
+HeatSeries(h, items, k, mm, basis) ==
   IF items = <<>> THEN Zero
-  ELSE RAdd(RMul(RMul(DH(Head(items), basis), Seen(Head(items), k, mm, basis)), R(Scale)),
-            HeatSeries(Tail(items), k, Apply1(Head(items), k, mm), basis))
-RECURSIVE HeatParallel(_, _, _, _)
-HeatParallel(items, k, mm, basis) ==
+  ELSE RAdd(RMul(RMul(DH(h, Head(items), basis), Seen(Head(items), k, mm, basis)), R(Scale)),
+            HeatSeries(h, Tail(items), k, Apply1(Head(items), k, mm), basis))
+RECURSIVE HeatParallel(_, _, _, _, _)
+HeatParallel(h, items, k, mm, basis) ==
   IF items = <<>> THEN Zero
-  ELSE RAdd(RMul(RMul(DH(Head(items), basis), Seen(Head(items), k, mm, basis)), R(Scale)), HeatParallel(Tail(items), k, mm, basis))
-HeatByDefinition(set, k, mm) == IF set.kind = "parallel" THEN HeatParallel(set.items, k, mm, set.basis) ELSE HeatSeries(set.items, k, mm, set.basis)
+  ELSE RAdd(RMul(RMul(DH(h, Head(items), basis), Seen(Head(items), k, mm, basis)), R(Scale)), HeatParallel(h, Tail(items), k, mm, basis))
+HeatByDefinition(h, set, k, mm) == IF set.kind = "parallel" THEN HeatParallel(h, set.items, k, mm, set.basis) ELSE HeatSeries(h, set.items, k, mm, set.basis)
 \* the definition's assumptions
 InDefinitionPhase(it, k) == \A i \in Participants(it) : PhaseIn(it, k, i) = (IF Tagged(it) THEN it.tag[i] ELSE Chem[i].ref)
 DefinitionApplies(s) == s.d3 = 0 /\ \A j \in DOMAIN s.rs.items : InDefinitionPhase(s.rs.items[j], s.kind)
 
 \* the temperature after an adiabatic reaction with heat input Q (kJ/hr): Scale (T' - T_ref) as a rational
-AdiabaticD3(s, mm, Q) == RDiv(RSub(RAdd(Hnet3(s), R(Q * Scale)), HForm3(mm)), CFlow(mm))
+AdiabaticD3(s, mm, Q) == RDiv(RSub(RAdd(Hnet3(s), R(Q * Scale)), HForm3(s.hf, mm)), CFlow(mm))
 
 ---------------------------------------------------------------------------
 WellFormed(s) == /\ PhasesOf(s.kind) # {}
@@ -145,6 +146,8 @@ Pre(s, op, a) ==
   CASE op = "set_feed" -> WellFormed([kind |-> a.kind, m |-> a.m])
     [] op = "load" -> SetOK(a.set)
     [] op = "dH" -> s.rs.kind # None /\ a.j \in DOMAIN s.rs.items
+    \* the user assigns a chemical's heat of formation and refreshes the compiled constants
+    [] op = "set_Hf" -> a.i \in Chems
     [] op = "react" -> /\ s.rs.kind # None /\ Fits(s.rs, s.kind) /\ NonNegT(ApplySet(s.rs, s.kind, s.m))
                        \* parallel members must not over-draw a shared reactant between them (C05's business)
     [] op = "adiabatic" -> /\ s.rs.kind # None /\ Fits(s.rs, s.kind) /\ NonNegT(ApplySet(s.rs, s.kind, s.m))
@@ -156,6 +159,7 @@ Post(s, op, a) ==
   CASE op = "set_feed" -> [s EXCEPT !.kind = a.kind, !.m = a.m, !.d3 = a.d3]
     [] op = "load" -> [s EXCEPT !.rs = a.set]
     [] op = "dH" -> s
+    [] op = "set_Hf" -> [s EXCEPT !.hf[a.i] = a.v]
     [] op = "react" -> [s EXCEPT !.m = ApplySet(s.rs, s.kind, s.m)]
     [] op = "adiabatic" -> LET mm == ApplySet(s.rs, s.kind, s.m) IN [s EXCEPT !.m = mm, !.d3 = Round(AdiabaticD3(s, mm, a.Q))]
 
@@ -168,10 +172,10 @@ Judge(s, e) ==
       u == e.post
       exp == Post(s, e.op, a) IN
   IF e.obs.exc # None THEN "exception"
-  ELSE IF e.op \in {"set_feed", "load"} THEN (IF u # exp THEN "frame" ELSE "ok")
+  ELSE IF e.op \in {"set_feed", "load", "set_Hf"} THEN (IF u # exp THEN "frame" ELSE "ok")
   ELSE IF e.op = "dH" THEN
        IF u # s THEN "frame"
-       ELSE IF ~NearQ(e.obs.dH, RMul(DH(s.rs.items[a.j], s.rs.basis), R(Scale)), 1) THEN "dH.value" ELSE "ok"
+       ELSE IF ~NearQ(e.obs.dH, RMul(DH(s.hf, s.rs.items[a.j], s.rs.basis), R(Scale)), 1) THEN "dH.value" ELSE "ok"
   ELSE \* react / adiabatic
        LET tolv == 2 + Ceil(CFlow(exp.m)) IN       \* the logged temperature is rounded to 1/Scale K
        IF u.m # exp.m THEN "react.material"
@@ -181,7 +185,7 @@ Judge(s, e) ==
        ELSE IF e.op = "react" THEN
             IF u.d3 # s.d3 THEN "isothermal.temperature_moved"
             ELSE IF ~NearQ(e.obs.Hnet1, Hnet3(u), tolv) THEN "hnet.after"
-            ELSE IF DefinitionApplies(s) /\ ~NearQ(e.obs.Hnet1 - e.obs.Hnet0, HeatByDefinition(s.rs, s.kind, s.m), 2) THEN "isothermal.heat_of_reaction"
+            ELSE IF DefinitionApplies(s) /\ ~NearQ(e.obs.Hnet1 - e.obs.Hnet0, HeatByDefinition(s.hf, s.rs, s.kind, s.m), 2) THEN "isothermal.heat_of_reaction"
             ELSE "ok"
        ELSE IF Abs(e.obs.Hnet1 - (e.obs.Hnet0 + a.Q * Scale)) > 2 + Ceil(CFlow(exp.m)) \div 100 THEN "adiabatic.balance"
             ELSE IF ~NearQ(u.d3, AdiabaticD3(s, exp.m, a.Q), 2) THEN "adiabatic.temperature"
@@ -189,7 +193,7 @@ Judge(s, e) ==
 Legal(s) == WellFormed(s) /\ (s.rs.kind = None \/ SetOK(s.rs))
 ObsLegal(e) == TRUE
 Suspended(e) == FALSE
-InitFrom(r) == kind = r.kind /\ m = r.m /\ d3 = r.d3 /\ rs = r.rs /\ added = Zero /\ path = <<>>
+InitFrom(r) == kind = r.kind /\ m = r.m /\ d3 = r.d3 /\ rs = r.rs /\ hf = r.hf /\ added = Zero /\ path = <<>>
 
 ---------------------------------------------------------------------------
 (* model *)
@@ -197,10 +201,12 @@ InitFrom(r) == kind = r.kind /\ m = r.m /\ d3 = r.d3 /\ rs = r.rs /\ added = Zer
 Item(i, r, X, tag) == LET v == Lib[i] IN
   [nu |-> [c \in Chems |-> RDiv(v[c], RNeg(v[r]))], r |-> r, X |-> X,
    tag |-> IF tag = <<>> THEN <<>> ELSE [c \in Chems |-> IF RIsZero(v[c]) THEN "-" ELSE tag[c]]]
-Init == \E f \in ModelFeeds : kind = f.kind /\ m = f.m /\ d3 = 0 /\ rs = NoSet /\ added = Hnet3([kind |-> f.kind, m |-> f.m, d3 |-> 0]) /\ path = <<>>
+Hf0 == [i \in Chems |-> Chem[i].Hf]
+Init == \E f \in ModelFeeds : kind = f.kind /\ m = f.m /\ d3 = 0 /\ rs = NoSet /\ hf = Hf0
+                              /\ added = Hnet3([kind |-> f.kind, m |-> f.m, d3 |-> 0, hf |-> Hf0]) /\ path = <<>>
 \* the reaction heat at the stream's own temperature and phases (general form of the ledger)
 RECURSIVE HeatAtSeries(_, _, _, _)
-HeatAt1(it, k, mm, dd) == SumOver(LAMBDA i : RMul(RMul(RMul(mm[PhaseIn(it, k, it.r)][it.r], it.X), it.nu[i]), R(HMol3(i, PhaseIn(it, k, i), dd))), Participants(it))
+HeatAt1(it, k, mm, dd) == SumOver(LAMBDA i : RMul(RMul(RMul(mm[PhaseIn(it, k, it.r)][it.r], it.X), it.nu[i]), R(HMol3(hf, i, PhaseIn(it, k, i), dd))), Participants(it))
 HeatAtSeries(items, k, mm, dd) == IF items = <<>> THEN Zero ELSE RAdd(HeatAt1(Head(items), k, mm, dd), HeatAtSeries(Tail(items), k, Apply1(Head(items), k, mm), dd))
 RECURSIVE HeatAtParallel(_, _, _, _)
 HeatAtParallel(items, k, mm, dd) == IF items = <<>> THEN Zero ELSE RAdd(HeatAt1(Head(items), k, mm, dd), HeatAtParallel(Tail(items), k, mm, dd))
@@ -209,7 +215,7 @@ HeatAt(s) == IF s.rs.kind = "parallel" THEN HeatAtParallel(s.rs.items, s.kind, s
 Act(op, a) == /\ (Pre(S, op, a) = TRUE) /\ SetS(Post(S, op, a))
               /\ added' = (CASE op = "react" -> RAdd(added, HeatAt(S))
                              [] op = "adiabatic" -> Hnet3(Post(S, op, a))      \* re-based: the temperature is rounded (see AdiabaticBalance)
-                             [] op = "set_feed" -> Hnet3(Post(S, op, a))
+                             [] op \in {"set_feed", "set_Hf"} -> Hnet3(Post(S, op, a))
                              [] OTHER -> added)
               /\ path' = Append(path, [op |-> op, a |-> a])
 Load == "load" \in Ops /\ rs.kind = None /\ \E k \in {"single", "parallel", "series"}, b \in {"mol", "wt"}, tg \in Tags, i1 \in DOMAIN Lib, i2 \in DOMAIN Lib,
@@ -220,9 +226,10 @@ Load == "load" \in Ops /\ rs.kind = None /\ \E k \in {"single", "parallel", "ser
                                   items |-> IF k = "single" THEN <<Item(i1, r1, x1, tg)>> ELSE <<Item(i1, r1, x1, tg), Item(i2, r2, x2, tg)>>]])
 React == "react" \in Ops /\ Act("react", [x |-> 0])
 Adiabatic == "adiabatic" \in Ops /\ \E q \in QVals : Act("adiabatic", [Q |-> q])
+SetHf == "set_Hf" \in Ops /\ \E i \in HfChems, v \in HfVals : Act("set_Hf", [i |-> i, v |-> v])
 Warm == "warm" \in Ops /\ \E dd \in DVals : Act("set_feed", [kind |-> kind, m |-> m, d3 |-> dd])
-Next == Load \/ React \/ Adiabatic \/ Warm
-vars == <<kind, m, d3, rs, added, path>>
+Next == Load \/ React \/ Adiabatic \/ Warm \/ SetHf
+vars == <<kind, m, d3, rs, hf, added, path>>
 Spec == Init /\ [][Next]_vars
 
 \* the enthalpy ledger: isothermal reactions move Hnet by the reaction heat at the stream's own temperature and phases
@@ -230,11 +237,11 @@ LedgerOK == Hnet3(S) = added
 \* the property's first-law statement for the DEFINED heat of reaction: under the definition's assumptions an isothermal
 \* reaction moves Hnet by exactly dH x reactant fed (item by item for sets, by mol or by weight)
 HeatOfReaction == [][Len(path') > Len(path) /\ path'[Len(path')].op = "react" /\ DefinitionApplies(S)
-                      => RSub(Hnet3(S'), Hnet3(S)) = HeatByDefinition(rs, kind, m)]_vars
+                      => RSub(Hnet3(S'), Hnet3(S)) = HeatByDefinition(hf, rs, kind, m)]_vars
 \* an adiabatic reaction with heat input Q closes the balance up to the rounding of the temperature
 AdiabaticBalance == [][Len(path') > Len(path) /\ path'[Len(path')].op = "adiabatic"
                         => RLeq(RAbs(RSub(Hnet3(S'), RAdd(Hnet3(S), R(path'[Len(path')].a.Q * Scale)))), CFlow(m'))]_vars
 \* the weight-basis heat of reaction is the molar one per unit mass of reactant
 BasisConsistent == rs.kind # None => \A j \in DOMAIN rs.items :
-                     RMul(DH(rs.items[j], "wt"), R(Chem[rs.items[j].r].MW)) = DH(rs.items[j], "mol")
+                     RMul(DH(hf, rs.items[j], "wt"), R(Chem[rs.items[j].r].MW)) = DH(hf, rs.items[j], "mol")
 =============================================================================
